@@ -160,22 +160,24 @@ func momentumInds() []Ind {
 			PriceDeg: []int{0, 0}, VolDeg: []int{0, 0}, Window: true,
 		},
 		{
-			Name: "StochasticRsi", Inputs: []string{X}, Params: []Param{per("period", 14)}, Outs: []string{"stochrsi"},
+			Name: "StochasticRsi", Inputs: []string{X}, Params: []Param{per("rsi", 14), per("window", 14)}, Outs: []string{"stochrsi"},
 			Build: func(c Config) (func([]C) []C, int) {
-				a := momentum.NewStochasticRsiWithPeriod[float64](c.P[0])
+				// the RSI length and the min/max window are separate exported fields
+				a := momentum.NewStochasticRsiWithPeriod[float64](c.P[1])
+				a.Rsi.Rma.Period = c.P[0]
 				return func(in []C) []C { return o1(a.Compute(in[0])) }, a.IdlePeriod()
 			},
 			Doc: "Stochastic RSI = (RSI - Min(RSI)) / (Max(RSI) - Min(RSI))",
 			Ref: func(c Config, in In) []ref.S {
 				r := rsiRef(in[X], c.P[0])
-				mn, mx := ref.WinMin(r, c.P[0]), ref.WinMax(r, c.P[0])
+				mn, mx := ref.WinMin(r, c.P[1]), ref.WinMax(r, c.P[1])
 				return []ref.S{ref.DivS(ref.SubS(r, mn), ref.SubS(mx, mn))}
 			},
 			Defect: &Defect{Key: "StochasticRsi/undefined-rsi-never-leaves-the-moving-extremes", Model: func(c Config, in In) []ref.S {
 				// once an undefined RSI (0/0 on a flat run) entered the moving min/max trees it can
 				// not be removed again (NaN is never found), so every later value is unspecified
 				r := ref.PoisonAfterBad(rsiRef(in[X], c.P[0]))
-				mn, mx := ref.WinMin(r, c.P[0]), ref.WinMax(r, c.P[0])
+				mn, mx := ref.WinMin(r, c.P[1]), ref.WinMax(r, c.P[1])
 				return []ref.S{ref.DivS(ref.SubS(r, mn), ref.SubS(mx, mn))}
 			}},
 			PriceDeg: []int{0}, VolDeg: []int{0}, Recursive: true,
